@@ -49,6 +49,7 @@ def run(ctx):
         lib.must_pass(ctx, '1x write_plan-searches-all', wp, s, 'every planned write first searches all indexes for the key')
     # 2. old index files
     shared.wal_confinement(ctx, '2')
+    shared.drop_table_idempotent(ctx, '2i')
     pr = ctx.body('db::DbInner::process_reindex')
     if pr:
         for callee, fld in (("log::LogWriter::<'a>::drop_table", '.ReindexBatch.drop_index'), ("log::LogWriter::<'a>::drop_ref_count_table", '.ReindexBatch.drop_ref_count')):
@@ -140,6 +141,44 @@ def run(ctx):
                'the entries of a source page are iterated with plain slice iteration (no take/skip/filter adaptor that could leave entries of a page behind while the page counter advances)', not bad, '; '.join(bad))
     # 5. collision chain
     C05.key_tail_check(ctx, '5')
+    # the vectorised page scan never searches for the pattern 0 (empty slots carry 0: a zero compare target makes the scan
+    # return an empty slot, which every caller reads as the end of the collision chain): the value broadcast into the compare
+    # register is the very value that was tested against zero, and the scalar fallback takes the zero case
+    for fn in ('index::IndexTable::find_entry_sse2',):
+        fs = F.body(fn)
+        if fs is None:
+            ctx.note('%s not compiled in this configuration (non-x86_64): scalar search only' % fn)
+            continue
+        bc = [bi for bi, t in fs.calls() if bi in fs.normal_blocks() and call_matches(t, ['re:_mm_set1_epi32$', 're:_mm_set1_epi64x$', 're:_mm256_set1_epi32$'])]
+        fb = fs.call_sites('index::IndexTable::find_entry_base')
+        ctx.ob('5z0 vector-scan-anchors', 'anchor', fn, 'the vectorised scan broadcasts one compare target and has a scalar fallback', len(bc) == 1 and len(fb) >= 1, '%s %s' % (bc, fb))
+        for s2 in bc:
+            tgt = lib.root_local(fs, fs.term(s2)['a'][0])
+            ok = False
+            det = 'no zero test of the broadcast value dominates the broadcast'
+            for (sw, yes, no) in fs.control_deps(s2):
+                t = fs.term(sw)
+                if t['k'] != 'switch' or op_local(t['a']) is None:
+                    continue
+                ds = fs.defs().get(op_local(t['a']), [])
+                if len(ds) != 1 or ds[0][2] != 'assign' or ds[0][3]['r']['k'] != 'bin' or ds[0][3]['r']['op'] not in ('Eq', 'Ne'):
+                    continue
+                a, b2 = ds[0][3]['r']['a']
+                if b2.get('i') != 0:
+                    continue
+                tested = lib.root_local(fs, a)
+                # edge on which the value is non-zero
+                nz = t['ts'][0] if ds[0][3]['r']['op'] == 'Eq' else t['ts'][1]
+                z = t['ts'][1] if ds[0][3]['r']['op'] == 'Eq' else t['ts'][0]
+                if tested == tgt and tgt is not None:
+                    if nz in yes and z in no and any(x in fs.reachable_from([z], removed={sw}) for x in fb):
+                        ok = True
+                    else:
+                        det = 'the zero test of the broadcast value does not separate the broadcast (non-zero edge) from the scalar fallback (zero edge)'
+                else:
+                    det = 'the value tested against zero (_%s) is not the value broadcast as compare target (_%s): a zero target can reach the vector compare' % (tested, tgt)
+            ctx.ob('5z zero-pattern-never-vector-searched', 'K3-guard', fn,
+                   'the compare target of the vectorised page scan is exactly the value tested against zero on the edge that continues to the scan; the zero case goes to the scalar search', ok, det, fs.loc(s2))
     # 6. skip if present
     wl = ctx.body('column::HashColumn::write_reindex_plan_locked')
     if wl:
